@@ -126,7 +126,8 @@ def run_condition(modname, cond, tier, seed, known):
     # 3. search
     verdict = "inconclusive"
     violation = None
-    for rnd in range(4):
+    max_rounds = 2 if tier == "quick" else 4
+    for rnd in range(max_rounds):
         rec["rounds"] = rnd + 1
         r = sym(modname, fn, timeout, seed + rnd, excl)
         for k in ("paths", "reached_oracle", "solver_checks", "solver_unknown"):
@@ -146,7 +147,7 @@ def run_condition(modname, cond, tier, seed, known):
                 break
             pred = exact_exclusion(modname, fn, f["call"])
             rec["spurious"].append({"call": f["call"], "message": f["message"][:200]})
-            if not pred or rnd == 3:
+            if not pred or rnd == max_rounds - 1:
                 verdict = "inconclusive"
                 break
             excl.append(pred)
